@@ -69,3 +69,52 @@ def gen_tokenizer(items):
             return D('SNIPPET_STOP_OFFSET_IS_MAX', 1, 'try_add_token: `self.stop_offset = self.stop_offset.max(token.offset_to)` (0 = plain assignment, 1 = running maximum)')
         raise Fail(f'{sn}: try_add_token no longer sets stop_offset to token.offset_to or to the running maximum')
     items.append(stop_offset_rule)
+
+    def split_clears():
+        # SplitCompoundWordsFilter keeps `cuts` and `parts` in the tokenizer (reused by every stream)
+        f = 'src/tokenizer/split_compound_words.rs'
+        body = fn_body(f, 'token_stream')
+        if 'SplitCompoundWordsTokenStream' not in body:
+            raise Fail(f'{f}: token_stream no longer builds a SplitCompoundWordsTokenStream')
+        if not re.search(r'parts\s*:\s*&mut\s+self\.parts', body):
+            raise Fail(f'{f}: the stream no longer borrows the `parts` buffer of the tokenizer')
+        cleared = bool(re.search(r'self\.parts\.clear\(\)\s*;', body))
+        return D('SPLIT_COMPOUND_CLEARS_PARTS', 1 if cleared else 0,
+                 'SplitCompoundWordsFilter::token_stream: 1 = `self.parts.clear()` before the stream is built')
+    items.append(split_clears)
+
+    def tokenizers_reset():
+        # every scanning tokenizer keeps its Token in the tokenizer and must reset it per stream
+        names = ['simple_tokenizer', 'whitespace_tokenizer', 'regex_tokenizer', 'ngram_tokenizer', 'facet_tokenizer', 'raw_tokenizer']
+        ok = all(re.search(r'self\.token\.reset\(\)\s*;', fn_body(f'src/tokenizer/{n}.rs', 'token_stream')) for n in names)
+        return D('TOKENIZERS_RESET_TOKEN', 1 if ok else 0,
+                 '1 = every built-in tokenizer calls `self.token.reset()` in token_stream')
+    items.append(tokenizers_reset)
+
+    def reset_position():
+        body = fn_body('tokenizer-api/src/lib.rs', 'reset')
+        m = re.search(r'self\.position\s*=\s*usize::MAX\s*;', body)
+        return D('TOKEN_RESET_POSITION_IS_MAX', 1 if m else 0,
+                 'Token::reset: 1 = `self.position = usize::MAX` (the first `wrapping_add(1)` gives position 0)')
+    items.append(reset_position)
+
+    def buffer_clears():
+        # filters that build the rewritten text in a reusable String and swap it with the token text
+        lo = fn_body('src/tokenizer/lower_caser.rs', 'to_lowercase_unicode')
+        fo = fn_body('src/tokenizer/ascii_folding_filter.rs', 'to_ascii')
+        st = fn_body('src/tokenizer/stemmer.rs', 'advance')
+        a = 1 if re.match(r'\s*output\.clear\(\)\s*;', lo) else 0
+        b = 1 if re.match(r'\s*output\.clear\(\)\s*;', fo) else 0
+        c = 1 if re.search(r'self\.buffer\.clear\(\)\s*;\s*self\.buffer\.push_str\(', st) else 0
+        return D('LOWERCASER_CLEARS_OUTPUT', a, 'lower_caser.rs to_lowercase_unicode starts with `output.clear()`') + '\n' + \
+               D('ASCII_FOLDING_CLEARS_OUTPUT', b, 'ascii_folding_filter.rs to_ascii starts with `output.clear()`') + '\n' + \
+               D('STEMMER_CLEARS_BUFFER', c, 'stemmer.rs advance: `self.buffer.clear()` before `push_str`')
+    items.append(buffer_clears)
+
+    def ngram_new_guards():
+        body = fn_body(ng, 'new')
+        a = 1 if re.search(r'if\s+min_gram\s*==\s*0\s*\{\s*return\s+Err', body) else 0
+        b = 1 if re.search(r'if\s+min_gram\s*>\s*max_gram\s*\{\s*return\s+Err', body) else 0
+        return D('NGRAM_NEW_REJECTS_ZERO_MIN', a, 'NgramTokenizer::new: `if min_gram == 0 { return Err(..) }`') + '\n' + \
+               D('NGRAM_NEW_REJECTS_MIN_GT_MAX', b, 'NgramTokenizer::new: `if min_gram > max_gram { return Err(..) }`')
+    items.append(ngram_new_guards)
